@@ -830,6 +830,65 @@ class H4(Case):
         return obs
 
 
+class H5(Case):
+    """compute_caps() on a file-backed process tensor (tensors written step by step, caps then computed from the
+    MPO) == compute_caps() of the in-memory object with the same tensors == explicit index sum over the
+    transformed tensors with the trace vector (cap_N = [1], cap_k[a] = sum_{b,i,j} Meff_k[a,b,i,j] cap_{k+1}[b] tr_i tr_j,
+    tr = vec(1)/sqrt(d), so tr_i tr_j = 1/d on the identity entries)"""
+    functions = ("FileProcessTensor.compute_caps", "SimpleProcessTensor.compute_caps", "FileProcessTensor.get_mpo_tensor",
+                 "FileProcessTensor.set_mpo_tensor", "FileProcessTensor.set_cap_tensor", "FileProcessTensor.get_cap_tensor",
+                 "BaseProcessTensor.__init__ (trace vectors)", "_set_data_and_shape", "_get_data_and_shape")
+    stubs = h5stub.STUB_TEXT
+    env = ENV
+    real_env = {}
+
+    def __init__(self, N, bond, rank, transforms, d=2):
+        self.N, self.bond, self.rank, self.transforms, self.d = N, bond, rank, transforms, d
+        self.id = "H5/compute_caps_N%d_b%d_r%d_%s" % (N, bond, rank, TR_NAMES[transforms])
+        self.bounds = {"d": d, "N": N, "bond": bond, "rank": rank, "transforms": str(transforms)}
+        self.timeout_s = 300
+
+    def run(self, inp):
+        d, N = self.d, self.N
+        D = d * d
+        with Workspace(inp) as ws:
+            pt, Meff, _ = build_pt_x(inp, "e", d, N, self.bond, self.rank, self.transforms, dt=0.1)
+            f = ptm.FileProcessTensor(mode="write", filename=ws.path("pt.hdf5"), hilbert_space_dimension=d, dt=0.1,
+                                      transform_in=pt.transform_in, transform_out=pt.transform_out)
+            obs = []
+            try:
+                for k in range(N):
+                    f.set_mpo_tensor(k, pt._mpo_tensors[k])
+                pt.compute_caps()
+                f.compute_caps()
+                from fractions import Fraction
+                tr = np.identity(d).reshape(D)
+                w = Fraction(1, d)
+                exp = [None] * (N + 1)
+                exp[N] = np.array([1.0], dtype=object)
+                for k in reversed(range(N)):
+                    M = Meff[k]
+                    c = np.zeros((M.shape[0],), dtype=object)
+                    for a in range(M.shape[0]):
+                        acc = 0
+                        for b in range(M.shape[1]):
+                            for i in range(D):
+                                for j in range(D):
+                                    if tr[i] != 0 and tr[j] != 0:
+                                        acc = acc + M[a, b, i, j] * exp[k + 1][b]
+                        c[a] = acc * w
+                    exp[k] = c
+                for k in range(N + 1):
+                    ok, cf = _get(obs, "file-backed get_cap_tensor(%d)" % k, lambda: f.get_cap_tensor(k))
+                    cs = pt.get_cap_tensor(k)
+                    obs.append(Ob.eq("in-memory compute_caps cap %d == explicit index sum" % k, cs, exp[k]))
+                    if ok:
+                        obs.append(Ob.eq("file-backed compute_caps cap %d == explicit index sum" % k, cf, exp[k]))
+            finally:
+                f.close()
+        return concretise_frac(inp, obs)
+
+
 def pt_tempo(infl, N, K, d, pt):
     """real PtTempoBackend.initialize / compute_step / update_process_tensor -> the backend"""
     from oqupy.backends.pt_tempo_backend import PtTempoBackend
@@ -859,7 +918,13 @@ def cases(tier):
     cs += [H2(2, None), H2(3, 1), H2(2, None, "real", named_file=False), H2(2, None, via_init="cunit")]
     cs += [H3("su2"), H3("gen", overwrite=True), H3("identity", named=False), H3("sy")]
     cs += [H4("name_then_description"), H4("description_then_name"), H4("description_only", initial=False)]
+    cs += [H5(1, 1, 4, "full"), H5(2, 2, 3, True), H5(1, 1, 4, "in_full"), H5(3, 2, 3, False), H5(2, 2, 4, "out"), H5(2, 2, 4, True),
+           H5(1, 1, 3, "full")]
     if tier == "thorough":
+        cs += [H5(N, 2 if N > 1 else 1, rank, tr) for N in (1, 2, 3) for rank in (3, 4)
+               for tr in (False, True, "full", "in", "out", "in_full", "out_full")
+               if not (tr == "full" and N > 1)]      # two full symbolic transforms with N >= 2: solver unknown at 300 s (probed), outside the bound
+        cs = [c for i, c in enumerate(cs) if not any(c.id == x.id for x in cs[:i])]
         for kind in ("file", "simple"):
             for N in (1, 2, 3):
                 for rank in (3, 4):
